@@ -100,8 +100,8 @@ PAREN_FIELD_FIELD_OP = ["parenfieldfield_opassign_" + o for o in OPS]   # (cv.in
 DEEP_OP = INDEX2_OP + FIELD2_OP + PAREN_FIELD_INDEX_OP + PAREN_FIELD_FIELD_OP
 EXPR_FORMS = OPASSIGN + ["unwrap_assign"] + INDEX_OP + FIELD_OP + DEEP_OP   # usable inside a loop header
 REACH_OUT = ["modify"] + EXPR_FORMS + ["index_assign", "field_assign"]   # reach a captured variable
-REACH_OUT += ["index2_assign", "field2_assign"]
-ALL_FORMS = WHOLE_STMT + ["modify", "index_assign", "field_assign", "index2_assign", "field2_assign"] + EXPR_FORMS
+REACH_OUT += ["index2_assign", "field2_assign", "shadow_modify"]
+ALL_FORMS = WHOLE_STMT + ["modify", "shadow_modify", "index_assign", "field_assign", "index2_assign", "field2_assign"] + EXPR_FORMS
 
 # ----------------------------------------------------------------------------- contexts
 CTXS = ["same_scope", "nested_block", "nested_function", "nested_function2", "method", "while_header",
@@ -180,7 +180,7 @@ MX_SOURCE = "\n".join([
 # ----------------------------------------------------------------------------- applicability (data)
 # 1. kind -> forms that are meaningful for a target of that kind (the write would be well-typed and
 #    grammatical if the target were an ordinary variable).
-SCALAR_WHOLE = ["assign", "typed_assign", "unwrap_assign", "modify", "unpack", "unpack_const", "redeclare_const",
+SCALAR_WHOLE = ["assign", "typed_assign", "unwrap_assign", "modify", "shadow_modify", "unpack", "unpack_const", "redeclare_const",
                 "redeclare_const_typed", "shadow_class", "shadow_import_module", "shadow_import_name"]
 KIND_FORMS = {
     "int": SCALAR_WHOLE + OPASSIGN + ["loop_counter"],
@@ -217,6 +217,8 @@ def form_ctx_excluded(form, ctx):
         return "statement form: cannot be written inside a loop header expression"
     if ctx in CLOSURE_CTXS and form not in REACH_OUT and not form.startswith("field_of_member"):
         return "inside a nested function this form creates a new local (C07); it is not a write to the outer name"
+    if form == "shadow_modify" and ctx not in CLOSURE_CTXS:
+        return "`modify` addresses a variable captured from an enclosing function; nothing is captured here"
     if form == "modify" and ctx not in CLOSURE_CTXS:
         return "`modify` addresses a variable captured from an enclosing function; nothing is captured here"
     if form == "shadow_class" and ctx != "same_scope":
@@ -291,6 +293,10 @@ def write_text(decl, form):
         st = ["t9 = " + expr]
     elif bf == "modify":
         st = ["modify %s = %s" % (name, new)]
+    elif bf == "shadow_modify":
+        # a same-named local first (legal shadowing), then `modify` in the same block: `modify` still means the
+        # captured outer name
+        st = ["%s = %s" % (name, new), "modify %s = %s" % (name, new)]
     elif bf == "index_assign":
         st = ["%s[0] = 9" % name]
     elif bf == "index_opassign":
@@ -455,7 +461,8 @@ def build(decl, form, ctx, const=True, write=True):
         st, expr, cond, frm = write_text(decl, form)
         wl, off = wrap_ctx(ctx, st, cond, frm, 0)
         # index of the write statement inside wl: first line containing the statement text
-        key = st[0] if ctx not in ("while_header", "from_header") else (cond if ctx == "while_header" else frm)
+        key = (st[-1] if bf == "shadow_modify" else st[0]) if ctx not in ("while_header", "from_header") else (
+            cond if ctx == "while_header" else frm)
         widx = next(i for i, l in enumerate(wl) if key in l)
         wmark = len(body) + widx
         body += wl
